@@ -216,6 +216,26 @@ check("C11", "concurrent requests never lose or tear updates", "exploration",
       "DESIGN.md §3 C11",
       [R("^TestC11$", 2400, 60000, shards=(8, 16))])
 
+check("C13", "concurrent use of one server is free of data races", "exploration",
+      "rapid generator of concurrent programs with background ticker/timers on a -race build; oracle = Go race detector (reports parsed into signatures by the driver)",
+      "Sampling of schedules under the race detector: generated programs (first writes and reads of fresh repositories by several clients, uploads against eviction and expiry, artifacts and deletes on shared "
+      "subjects, filtered/paged referrers through the page cache, several client addresses through the rate limiter) run against a server with a 1-5 ms GC ticker and short grace periods, followed by Close. "
+      "Any report of the detector is a violation; its signature is the unordered pair of top olareg frames with access kinds.",
+      "Trusted: the Go race detector (reports only races on executed, concurrently scheduled accesses); this is fuzzing of schedules, not a proof of race freedom.",
+      "DESIGN.md §3 C13",
+      [R("^TestC13$", 800, 20000, shards=(8, 16), timeout=(900, 3300))], variant="race")
+
+check("C12", "no schedule can hang the registry", "exploration",
+      "rapid generator of concurrent programs on a vsync-instrumented build with injected delays after lock acquisitions; oracle = wait-for-graph cycle / stall monitor, cancellation and Close/Shutdown bounds",
+      "Sampling and perturbation of schedules: generated programs (chunked uploads against eviction and expiry with RepoUploadMax 1-4 and grace 5-50 ms, abandoned sessions, pipe-fed slow manifest bodies, cancelled "
+      "requests, 1-5 ms GC ticker) run on a build whose mutexes record who waits for whom; generated delays of up to 300 us after a drawn subset of lock sites widen race windows. A cycle in the wait-for graph "
+      "that persists over two monitor snapshots is an actual deadlock (reported with both acquisition sites and all olareg goroutine stacks); a second scenario runs Server.Run on loopback and calls Shutdown "
+      "while keep-alive clients are sending, with and without rate limit.",
+      "Trusted: the check-time rewrite of sync.Mutex/sync.WaitGroup in olareg.go, internal/store, internal/cache to recording wrappers; liveness is approximated by bounded completion (20 s, 100x normal latency) and a "
+      "stall is only called when the monitor itself kept ticking; hangs needing a specific interleaving of more than two lock sites may be missed.",
+      "DESIGN.md §3 C12",
+      [R("^TestC12$", 400, 12000, shards=(8, 16), timeout=(900, 3300)), R("^TestC12Shutdown$", 48, 1200, shards=(4, 8), timeout=(900, 3300))], variant="vsync")
+
 NOT_APPLICABLE = {}
 
 # --------------------------------------------------------------------------- helpers
@@ -433,6 +453,40 @@ def collect(results):
     return stats, fails
 
 
+def parse_races(results):
+    """Turn Go race detector reports (GORACE log_path files) into failure records."""
+    recs = []
+    for r in results:
+        for p in glob.glob(os.path.join(r["outdir"], "race.*")):
+            try:
+                txt = open(p, errors="replace").read()
+            except Exception:
+                continue
+            for block in txt.split("=================="):
+                if "WARNING: DATA RACE" not in block:
+                    continue
+                tops = []
+                kinds = []
+                for m in re.finditer(r"^(Read|Write|Previous read|Previous write|Atomic read|Atomic write|Previous atomic read|Previous atomic write) at 0x[0-9a-f]+ by (?:main )?goroutine[^\n]*\n((?:  .*\n(?:      .*\n)?)+)", block, re.M):
+                    kinds.append(m.group(1).replace("Previous ", "").lower())
+                    top = "?"
+                    for fm in re.finditer(r"^  (\S+)\(\)", m.group(2), re.M):
+                        fn = fm.group(1)
+                        if "olareg" in fn and "verifharness" not in fn:
+                            top = re.sub(r"^github.com/olareg/olareg/?", "", fn)
+                            top = re.sub(r"^internal/", "", top)
+                            break
+                    tops.append(top)
+                if not tops:
+                    tops = ["?"]
+                pair = sorted(zip(tops, kinds + ["?"] * len(tops)))
+                sig = "race:" + "|".join("%s[%s]" % (t, k) for t, k in pair)
+                harness_only = all(t == "?" for t in tops)
+                recs.append(dict(property="C13", signature="C13/" + sig, test="TestC13", message=block.strip()[:6000], trace=["(see the race report in 'message'; the program that ran is in the shard output)"],
+                                 shard=str(r["shard"]), _shard=r, _harness_only=harness_only))
+    return recs
+
+
 def merge_stats(stats):
     ev = 0
     hashes = set()
@@ -526,6 +580,17 @@ def cmd_check(pid, tier):
                     for attempt in range(3):
                         results = run_shards(binp, work, pid, tier, run, attempt_seed, open_sigs, c["variant"])
                         stats, fails = collect(results)
+                        if c["variant"] == "race":
+                            races = parse_races(results)
+                            if any(x["_harness_only"] for x in races):
+                                raise Infra("data race inside the harness itself:\n" + [x for x in races if x["_harness_only"]][0]["message"][:3000])
+                            # one record per signature; a shard whose only problem is a reported race is not an infra failure
+                            seen = set()
+                            for x in races:
+                                x.pop("_harness_only")
+                                if x["signature"] not in seen:
+                                    seen.add(x["signature"])
+                                    fails.append(x)
                         all_stats += stats
                         retry = False
                         for rec in fails:
@@ -537,6 +602,8 @@ def cmd_check(pid, tier):
                                 violations.append(rec)
                         for r in results:
                             has_fail = any(f.get("_shard") is r or f.get("shard") == str(r["shard"]) for f in fails)
+                            if c["variant"] == "race" and "race detected during execution of test" in r["out"]:
+                                has_fail = True
                             if r["rc"] != 0 and not has_fail:
                                 infra.append(r)
                             if r["rc"] == 0:
